@@ -1,8 +1,8 @@
 #!/usr/bin/env python3
-"""store_seed.py <prop> <n> [patchfile]: copy a confirmed seeded change into /verif/seeded/<prop>_<n>/"""
+"""store_seed.py <prop> <n> [patchfile] (env SEEDROOT, SRCN: source directory number if different from n): copy a confirmed seeded change into /verif/seeded/<prop>_<n>/"""
 import json, os, shutil, sys
 prop, n = sys.argv[1], sys.argv[2]
-src = "/tmp/seed/%s/out/%s" % (prop, n)
+src = "%s/%s/out/%s" % (os.environ.get("SEEDROOT", "/tmp/seed"), prop, os.environ.get("SRCN", n))
 patch = sys.argv[3] if len(sys.argv) > 3 else os.path.join(src, "patch.diff")
 res = open("/tmp/confirm/%s_%s.result" % (prop, n)).read()
 assert "demo_without=0" in res and "demo_with=1" in res and "174 passed" in res and "apply=ok" in res, res
